@@ -53,7 +53,7 @@ Fixpoint stream_loop (elapsed dry_ cancelled_ : bool) (i : option (list Z)) (r :
        | seg :: fs =>
            if dry_ && elapsed then (false, (i1, r1, futs))
            else match seg with
-                | [] => (false, (i1, r1, futs))
+                | [] => (false, (i1, r1, fs))        (* the fetcher answered (nil, nil): SetCurrentPage(nil) fails, the state is kept *)
                 | FetchFail :: _ => (false, (i1, r1, futs))
                 | IterFail :: r' => (false, (None, r', fs))
                 | Page items :: r' =>
@@ -179,7 +179,7 @@ Fixpoint tloop (T : Z) (reach : Z) (i : option (list Z)) (r : list page) (futs :
                if d && (T <=? now - reach)%Z then (TExpired, mkT i1 r1 futs reach env')
                else let reach' := if d then reach else now in
                     match seg with
-                    | [] => (TFetchStop, mkT i1 r1 futs reach' env')
+                    | [] => (TFetchStop, mkT i1 r1 fs reach' env')
                     | FetchFail :: _ => (TFetchStop, mkT i1 r1 futs reach' env')
                     | IterFail :: r' => (TFetchStop, mkT None r' fs reach' env')
                     | Page items :: r' => tloop T reach' (Some items) r' fs env'
